@@ -43,7 +43,8 @@ var envMu sync.Mutex
 // (register n deferred functions through Env.Defer, then optionally fail).
 type setupPlan struct {
 	Defers int
-	Fail   string // "" | error | fatal
+	Fail   string   // "" | error | fatal
+	Vars   []string // K=V additions made by Setup (Env.Setenv for even positions, appended to Env.Vars for odd ones)
 }
 
 const planFile = "zz_setup_plan"
@@ -52,7 +53,13 @@ func planOf(files []tsmodel.ArchiveFile) setupPlan {
 	var p setupPlan
 	for _, f := range files {
 		if f.Name == planFile {
-			fmt.Sscanf(f.Data, "defers=%d fail=%s", &p.Defers, &p.Fail)
+			var vars string
+			fmt.Sscanf(f.Data, "defers=%d fail=%s vars=%s", &p.Defers, &p.Fail, &vars)
+			for _, kv := range strings.Split(vars, ",") {
+				if strings.Contains(kv, "=") {
+					p.Vars = append(p.Vars, kv)
+				}
+			}
 		}
 	}
 	if p.Fail == "-" {
@@ -102,7 +109,7 @@ func checkBatch(c batchCase) *vt.Fail {
 			return nil
 		}
 		// never run what the model abstains on (it may hang)
-		if pre := tsmodel.New(c.P, tsmodel.Host{WorkAbs: "/WORKDIR", Path: os.Getenv("PATH")}, s.Files).Run(s.Text); pre.Unmodelled != "" {
+		if pre := tsmodel.New(c.P, tsmodel.Host{WorkAbs: "/WORKDIR", Path: os.Getenv("PATH"), SetupEnv: planOf(s.Files).Vars}, s.Files).Run(s.Text); pre.Unmodelled != "" {
 			return nil
 		}
 		for _, f := range strings.Fields(s.Text) {
@@ -168,6 +175,13 @@ func checkBatch(c batchCase) *vt.Fail {
 				tag := fmt.Sprintf("setup-%d", i)
 				e.Defer(func() { r.RecordDefer(name, tag) })
 			}
+			for i, kv := range plan.Vars {
+				if k, v, _ := strings.Cut(kv, "="); i%2 == 0 {
+					e.Setenv(k, v)
+				} else {
+					e.Vars = append(e.Vars, kv)
+				}
+			}
 			switch plan.Fail {
 			case "error":
 				return fmt.Errorf("planned setup failure")
@@ -194,8 +208,10 @@ func checkBatch(c batchCase) *vt.Fail {
 			fn = c.FileNames[i]
 		}
 		usedFile[fn] = true
-		files = append(files, tskit.ScriptFile{Name: fn, Data: s.Bytes()})
+		ext, _ := tskit.LayoutFor(s.Bytes())
+		files = append(files, tskit.ScriptFile{Name: fn, Data: s.Bytes(), Ext: ext})
 	}
+	_, opts.UseDir = tskit.LayoutFor(files[0].Data)
 	rr := tskit.RunInProcess(root, files, opts)
 	if rr.Elapsed > 30*time.Second {
 		rec.Infra("a batch of %d short scripts took %v and only ended through the harness's safety deadline: are background processes no longer stopped when a script ends?", len(c.Scripts), rr.Elapsed.Round(time.Second))
@@ -323,7 +339,7 @@ func checkBatch(c batchCase) *vt.Fail {
 			}
 			return vt.Failf("no-environment-dump", "script %s did not get to report its environment (verdict %s)\n%s", name, sub.Verdict, trunc(sub.Log, 600))
 		}
-		h := tsmodel.Host{WorkAbs: work, Path: os.Getenv("PATH"), Short: testing.Short(), Extra: extra}
+		h := tsmodel.Host{WorkAbs: work, Path: os.Getenv("PATH"), Short: testing.Short(), Extra: extra, SetupEnv: plan.Vars}
 		m := tsmodel.New(c.P, h, s.Files)
 		startEnv := m.Env()
 		var wantList []string
@@ -473,7 +489,7 @@ func genBatch(t *rapid.T) batchCase {
 		RequireExplicitExec: rapid.IntRange(0, 5).Draw(t, "explicit") == 0}
 	n := rapid.IntRange(2, 10).Draw(t, "nscripts")
 	o := tsgen.Options{MaxLines: 14, FailProb: 35, Exec: true, Background: true, Custom: true, FixedParams: &c.P, PidDir: pidDir(), Prologue: []string{"exec vmain dumpenv", "recstd"}, AllowChmod2: true,
-		ExtraKinds: []string{"cd", "cd", "cd", "cd", "mkdir", "mkdir", "exists", "exists", "env", "cp", "probe", "probe", "exec", "bg", "bg", "bg", "bgwait", "bgwait", "wait", "bgmix", "bgmix"}}
+		ExtraKinds: []string{"cd", "cd", "cd", "cd", "mkdir", "mkdir", "exists", "exists", "env", "cp", "probe", "probe", "exec", "bg", "bg", "bg", "bgwait", "bgwait", "wait", "bgend", "bgend", "bgmix", "bgmix"}}
 	for i := 0; i < n; i++ {
 		if rapid.IntRange(0, 5).Draw(t, "pathtemplate") == 0 {
 			// scripts that differ in whether zzprog is on their PATH
@@ -489,8 +505,9 @@ func genBatch(t *rapid.T) batchCase {
 		}
 		sc := tsgen.Gen(t, o)
 		if rapid.IntRange(0, 2).Draw(t, "setupplan") == 0 {
-			sc.Files = append(sc.Files, tsmodel.ArchiveFile{Name: planFile, Data: fmt.Sprintf("defers=%d fail=%s\n", rapid.IntRange(0, 3).Draw(t, "setupdefers"),
-				rapid.SampledFrom([]string{"-", "-", "error", "fatal"}).Draw(t, "setupfail"))})
+			vars := rapid.SliceOfN(rapid.SampledFrom([]string{"SETUP_A=1", "SETUP_B=x_y", "HOME=/setup/home", "SETUP_A=2", "CANARY_TWO=from-setup", "TMPDIR=/setup/tmp"}), 0, 3).Draw(t, "setupvars")
+			sc.Files = append(sc.Files, tsmodel.ArchiveFile{Name: planFile, Data: fmt.Sprintf("defers=%d fail=%s vars=%s\n", rapid.IntRange(0, 3).Draw(t, "setupdefers"),
+				rapid.SampledFrom([]string{"-", "-", "error", "fatal"}).Draw(t, "setupfail"), strings.Join(vars, ","))})
 		}
 		c.Scripts = append(c.Scripts, sc)
 	}
